@@ -188,6 +188,14 @@ func faults01() []fault01 {
 			sib := world.Issue(world.LeafTemplate(world.Far, world.SgxExtension(w.P)), w.PKI.Inter, world.NewKey())
 			w.Q.Chain = world.ChainPEM(false, sib, w.PKI.Inter, w.PKI.Root) // QE signature is by the original leaf's key
 		}},
+		{"leaf-swapped-for-sibling-leaf-same-key-id", "reject", func(w *world.World, r *mrand.Rand) {
+			// the sibling carries the genuine leaf's subjectKeyIdentifier bytes and serial (an identifier is not a key)
+			t := world.LeafTemplate(world.Far, world.SgxExtension(w.P))
+			t.SubjectKeyId = w.PKI.Leaf.Cert.SubjectKeyId
+			t.SerialNumber = w.PKI.Leaf.Cert.SerialNumber
+			sib := world.Issue(t, w.PKI.Inter, world.NewKey())
+			w.Q.Chain = world.ChainPEM(false, sib, w.PKI.Inter, w.PKI.Root)
+		}},
 		{"chain-leaf-and-intermediate-swapped", "reject", func(w *world.World, r *mrand.Rand) {
 			w.Q.Chain = world.ChainPEM(false, w.PKI.Inter, w.PKI.Leaf, w.PKI.Root)
 		}},
@@ -276,6 +284,13 @@ func c01(x *mon.Ctx) {
 			w.Requote()
 		}
 		srcs = append(srcs, src{fmt.Sprintf("gen%d", i), w.Case(world.LBase, "bitflip-source", fmt.Sprintf("gen%d", i))})
+	}
+	{ // a source whose 16-bit numbers are all zero: a message claiming 65536 then differs from the signed value only above bit 15
+		r := x.Rand("bits-zero")
+		p := svnPlatform(r)
+		p.QeIsvSvn, p.QeIsvProdID, p.PceSvn = 0, 0, 0
+		w := world.Honest(r, world.HonestOpts{Shape: world.QuoteShape{AuthLen: 32}, Platform: p})
+		srcs = append(srcs, src{"gen-zero", w.Case(world.LBase, "bitflip-source", "gen-zero")})
 	}
 	srcs = append(srcs, src{"intel-spr-e4", intelCase(intelSprE4, sprE4Time, "bitflip-source")}, src{"intel-cos113", intelCase(intelCos113, cos113Time, "bitflip-source")})
 	for si, s := range srcs {
@@ -376,7 +391,7 @@ func c01(x *mon.Ctx) {
 			}
 		}
 	}
-	x.Require("message-numeric-bitflip", 0, 4*9*32, 4*9*32)
+	x.Require("message-numeric-bitflip", 0, 5*9*32, 5*9*32)
 	// ---- (a'') message-level length mutants: every byte-string field of the signed regions one byte longer (0x00 / 0xff
 	//      appended) or, when it ends in a zero byte, one byte shorter — a serialiser that copies into fixed-size windows
 	//      would produce exactly the signed bytes from such a message.
@@ -436,7 +451,7 @@ func c01(x *mon.Ctx) {
 			}
 		}
 	}
-	x.Require("message-field-length", 0, 4*27*5, 4*27*5)
+	x.Require("message-field-length", 0, 5*27*5, 5*27*5)
 
 	// ---- (c) random multi-byte mutants, reference decides
 	nm := x.Pick(3000, 200000)
